@@ -152,6 +152,7 @@ type doc
 			history(c, cs, p, "directed", warm, second, nil, change, si*100+rep)
 		}
 	}
+	parkedScan(c, base, m)
 	// generated
 	sem.RunCases(c, base, "mem", c.Pick(60, 600), gen.Options{NoConditions: true, HierarchyEvery: 3}, 0, 6, func(i int, r *rand.Rand, p *sem.Prepared, _ []*openfgav1.TupleKey) {
 		cs := servers[i%len(servers)]
